@@ -171,6 +171,9 @@ func MaybeOddForm(t *rapid.T, label string, rq *world.Req, pct int) {
 	case Pct(t, label+"-dialvia", pct):
 		rq.DialVia = Pick(t, label+"-dialviav", "10.0.0.7:8080", "127.0.0.1", "gateway.internal:80")
 	}
+	if rq.OpaqueForm == 0 && Pct(t, label+"-stalerawpath", pct) {
+		rq.StaleRawPath = true
+	}
 	if Pct(t, label+"-via2", pct) {
 		rq.Via2 = true // through a second transport that is open on the same store
 	}
